@@ -50,29 +50,48 @@ THEOREMS = [
     'C05.gen_lengths_eq_model', 'C05.gen_setLengths_eq_model', 'C05.gen_abc_eq_model', 'C05.gen_vectAngleCos_eq_model',
     'C05.gen_boxSetBody_eq_model', 'C05.gen_wrapBody_eq_model', 'C05.gen_wrapApi_eq_model', 'C05.gen_normalizeBody_eq_model',
     'C05.gen_deepcopyKeys_eq_model', 'C05.angle_rejected_iff', 'C05.gen_abcGuard_eq_angleGuard', 'C05.arccosDeg_real',
+    # second growth round: which object a call works on + values of the carried properties (model C05_Heap.lean,
+    # Proofs/C05_Heap.lean), exactly when the setter's clean-up is inactive (Proofs/C05_Clean.lean), set_hi_los regenerated
+    'C05.gen_deepcopyValues_eq_model', 'C05.copyView_mem', 'C05.copyView_canonical', 'C05.copyView_canonical_full',
+    'C05.wrapC_pbc', 'C05.wrapC_pos_length', 'C05.normalizeC_pos_length',
+    'C05.heap_wrap_in_place', 'C05.heap_normalize_input_untouched', 'C05.heap_normalize_refusal', 'C05.heap_normalize_carried',
+    'C05.zeroIfSmall_eq_self_iff', 'C05.zeroSmall_eq_self_iff', 'C05.clean_lammps_iff', 'C05.maxAbs_scaled_le',
+    'C05.zeroSmall_stretched', 'C05.hclean_iff', 'C05.wrap_clean_of_margin', 'C05.hist_wrap_inside_margin', 'C05.hc2_iff',
+    'C05.hist_normalize_full_explicit', 'C05.gen_setHiLos_eq_model',
 ]
 PARTIAL = {
-    'input_left_as_it_was': 'a heap fact (aliasing/mutation), true by construction of the functional model and '
-                            'therefore not a theorem; checked on the implementation in every run by a bitwise '
-                            'snapshot of the input system, numpy.shares_memory on every per-atom array and the box, and '
-                            'by scribbling over everything a call returned / was handed before the next call',
-    'carried_properties': 'WHICH per-atom keys the copy made by normalize has is in the model since the growth round (copyKeys on '
-                          'the regenerated filter of Atoms.__deepcopy__; theorem copyKeys_complete; driver op copykeys); the VALUES of '
-                          'per-atom properties, symbols, masses and pbc are not part of the model (it has the box, pbc '
-                          'and positions only); that wrap / normalize hand them on bit for bit (vector and tensor '
-                          'properties are NOT rotated by normalize: neither the docstring nor the property asks for it) '
-                          'is checked on the implementation in every run (round 5: under property names drawn from a pool '
-                          'of short / reserved-looking / non-identifier names, with scalar, vector, string and degenerate '
-                          '(1,), (1,1) per-atom shapes)',
+    'input_left_as_it_was': 'OBJECT level: a theorem since the second growth round (store of objects addressed by index, '
+                            'lean/Atomman/C05_Heap.lean: heap_wrap_in_place - wrap rewrites the object it is called on, creates none, '
+                            'touches no other; heap_normalize_input_untouched - normalize appends ONE new object and leaves every '
+                            'existing one, the one it was called on included, exactly as it was; the `system = deepcopy(system)` '
+                            'statement the model rests on is matched by the source reader). Still not a theorem: the ARRAY level '
+                            '(that no ndarray buffer of the result is a view of one of the input, that arrays handed in / out are '
+                            'not kept) - checked on the implementation in every run by a bitwise snapshot of the input system, '
+                            'numpy.shares_memory on every per-atom array and the box, and by scribbling over everything a call '
+                            'returned / was handed before the next call',
+    'carried_properties': 'keys (copyKeys_complete) AND values of the per-atom properties are in the model since the second growth '
+                          'round: copyView runs the regenerated statements of Atoms.__deepcopy__ (which key is stored under which, '
+                          'gen_deepcopyValues_eq_model; driver op copyvals), copyView_mem / copyView_canonical / '
+                          'heap_normalize_carried: the result of normalize has exactly the entries of the input, each value list '
+                          'unchanged under its own name, one row per atom in the order of the positions; heap_wrap_in_place: wrap '
+                          'leaves the properties alone (its body, matched statement by statement, writes pos and the box only). '
+                          'Not in the model: the numpy representation of a value (dtype, per-atom shape), and the System-level '
+                          'attributes symbols / masses (copied by the default deepcopy); these stay oracle clauses (*:carried) on '
+                          'the implementation (vector and tensor properties are NOT rotated by normalize: neither the docstring '
+                          'nor the property asks for it)',
     'setter_clean_up': 'the "zero out near zero terms" step of the Box.vects setter (components below 1e-9 of the '
                        'largest one are set to 0) is part of the object-level model (zeroSmall) and of the '
                        'correspondence, but the wrap_*/normalize_* theorems are about the functional model without it: '
                        'they transfer to the object under the explicit hypothesis that the clean-up is inactive. '
-                       'Discharged: fully periodic wrap (hist_wrap_full); in a fully periodic normalize the reversal of '
+                       'Exactly when that is so is a theorem now (zeroSmall_eq_self_iff: every component zero or above tiny times '
+                       'the largest; hclean_iff, hc2_iff, clean_lammps_iff state the two remaining hypotheses on the numbers). '
+                       'Discharged: fully periodic wrap (hist_wrap_full); a wrap of ANY periodicity whose cell has no component '
+                       'within tiny*kmax of zero and that lengthens no direction by more than kmax (wrap_clean_of_margin, '
+                       'hist_wrap_inside_margin); in a fully periodic normalize the reversal of '
                        'a left-handed cell (zeroSmall_flipC) and the final wrap (hist_normalize_full). Still a '
-                       'hypothesis: a wrap that lengthens a non-periodic vector (hist_wrap_inside: hclean) and the '
-                       'rebuilt LAMMPS cell of normalize (hist_normalize_full: hc2, no tilt factor below 1e-9 of the '
-                       'largest component). Where it is active the real code does change a cell vector by up to 1e-9 '
+                       'hypothesis because it can really fail: the rebuilt LAMMPS cell of normalize (hc2: a tilt factor '
+                       'below 1e-9 of the largest component is zeroed by the real code) and wraps outside the margin. '
+                       'Where it is active the real code does change a cell vector by up to 1e-9 '
                        'of the largest component; the oracle grants exactly that much and only where a component '
                        'became exactly 0',
     'storage_dtype': 'the model computes in one field; that positions handed over as integers are stored as floats '
@@ -2239,6 +2258,8 @@ def correspond(ctx):
     # the entry points with every kind of value for their options (own random stream: the cases above are unchanged)
     _corr_api(ctx, _api_cases(random.Random(ctx.seed + 31), ctx.n(288, 2304)))
     _corr_copykeys(ctx, random.Random(ctx.seed + 37), ctx.n(64, 512))
+    _corr_copyvals(ctx, random.Random(ctx.seed + 41), ctx.n(64, 512))
+    _corr_hilo(ctx, random.Random(ctx.seed + 43), ctx.n(96, 768))
 
 
 def _inside_nonperiodic(rng, case):
@@ -3420,6 +3441,88 @@ def _corr_copykeys(ctx, rng, n):
                          {'op': 'norm', 'case': case})
 
 
+def _bits_equal(a, b):
+    import numpy as np
+    a, b = np.asarray(a), np.asarray(b)
+    if a.dtype != b.dtype or a.shape != b.shape:
+        return False
+    if a.dtype == object:
+        return list(a.ravel()) == list(b.ravel())
+    return a.tobytes() == b.tobytes()
+
+
+def _corr_copyvals(ctx, rng, n):
+    """VALUES of the copy `normalize` works on (`deepcopy(system.atoms)`, i.e. Atoms.__deepcopy__) vs the model's `copyView` run on
+    the regenerated explicit sources / loop source / exclusion list: every key of the copy is labelled with the index of the
+    key of the ORIGINAL whose column it holds bit for bit (its own, if that matches), `x` if none."""
+    from copy import deepcopy
+    lines, wants = [], []
+    for it in range(n):
+        case = _grid_case(rng, (True, True, True), n=rng.randint(1, 4))
+        system = _build(case)
+        keys = list(system.atoms.view.keys())
+        orig = {k: system.atoms.view[k].copy() for k in keys}
+        try:
+            cp = deepcopy(system.atoms)
+            got = []
+            for k in cp.view.keys():
+                v = cp.view[k]
+                if k in orig and _bits_equal(v, orig[k]):
+                    lab = str(keys.index(k))
+                else:
+                    lab = next((str(j) for j, kk in enumerate(keys) if _bits_equal(v, orig[kk])), 'x')
+                got.append(_hexname(k) + ':' + lab)
+        except Exception as e:  # noqa
+            got = 'raised ' + type(e).__name__
+        lines.append('copyvals ' + ' '.join(_hexname(k) + ':' + str(j) for j, k in enumerate(keys)))
+        wants.append((case, keys, got))
+    outs = ctx.driver.ask_many(lines)
+    for line, (case, keys, got), out in zip(lines, wants, outs):
+        ctx.stats.case('api:copyvals', line, nontrivial=True)
+        model = out.split() if not out.startswith('err:') else out
+        if isinstance(got, str) or isinstance(model, str) or sorted(got) != sorted(model):
+            ctx.disagree('norm:carried', f'deepcopy of the atoms (the copy normalize works on): entries key:column-of-the-original '
+                         f'{got}, model {model} (input keys {keys})', {'op': 'norm', 'case': case})
+
+
+def _corr_hilo(ctx, rng, n):
+    """`Box(xlo=…, …, yz=…)` (set_hi_los -> set_lengths -> vects setter) vs the generated formulas run by the driver op `hilobox`;
+    dyadic bounds (differences exact), tilt factors incl. 0, tiny ones the setter's clean-up removes, and non-positive lengths
+    (the assertion of set_lengths)."""
+    import numpy as np
+    import atomman as am
+    lines, wants = [], []
+    for it in range(n):
+        sc = 2.0 ** rng.choice((0, 0, 0, 7, -9, 40, -40))
+        lo = [cm.dyadic(rng, -8, 8, 3) * sc for _ in range(3)]
+        ln = [cm.dyadic(rng, 0.125, 8, 3) * sc for _ in range(3)]
+        if rng.random() < 0.15:
+            ln[rng.randrange(3)] *= rng.choice((0.0, -1.0))
+        hi = [a + b for a, b in zip(lo, ln)]
+        tilt = [rng.choice((0.0, cm.dyadic(rng, -8, 8, 3) * sc, sc * 2.0 ** -rng.choice((28, 29, 30, 31, 33, 40)),
+                            -sc * 2.0 ** -rng.choice((29, 30, 35)))) for _ in range(3)]
+        args = [lo[0], hi[0], lo[1], hi[1], lo[2], hi[2]] + tilt
+        try:
+            bx = am.Box(xlo=args[0], xhi=args[1], ylo=args[2], yhi=args[3], zlo=args[4], zhi=args[5],
+                        xy=args[6], xz=args[7], yz=args[8])
+            got = [F(float(x)) for x in list(np.asarray(bx.vects).ravel()) + list(np.asarray(bx.origin).ravel())]
+        except AssertionError:
+            got = 'err:assert'
+        except Exception as e:  # noqa
+            got = 'raised ' + type(e).__name__
+        lines.append('hilobox ' + ' '.join(cm.fr(x) for x in args))
+        wants.append((args, got))
+    outs = ctx.driver.ask_many(lines)
+    for line, (args, got), out in zip(lines, wants, outs):
+        ctx.stats.case('api:hilobox', line, nontrivial=any(args[6:]))
+        model = out if out.startswith('err:') else cm.unfrs(out)
+        if got != model:
+            ctx.disagree('boxset:box', f'Box(xlo={args[0]!r}, xhi={args[1]!r}, ylo={args[2]!r}, yhi={args[3]!r}, zlo={args[4]!r}, '
+                         f'zhi={args[5]!r}, xy={args[6]!r}, xz={args[7]!r}, yz={args[8]!r}): implementation '
+                         f'{got if isinstance(got, str) else [float(x) for x in got]}, model '
+                         f'{model if isinstance(model, str) else [float(x) for x in model]}', {'op': 'hilo', 'args': args})
+
+
 def _corr_api(ctx, recs):
     outs = ctx.driver.ask_many([r['line'] for r in recs])
     for rec, out in zip(recs, outs):
@@ -4121,6 +4224,23 @@ def translate():
     if [n for n, _ in lets] != ['lx', 'xy', 'xz', 'ly', 'yz', 'lz'] \
             or U(b[-1]) != 'self.set_lengths(lx=lx, ly=ly, lz=lz, xy=xy, xz=xz, yz=yz, origin=origin)':
         bad('Box.set_abc: the six LAMMPS parameters / the final call')
+    # set_hi_los (reached through box_set(xlo=...) / Box.set(xlo=...) in histories)
+    fn = method(B, 'set_hi_los')
+    b = body_of(fn)
+    if [U(default_of(fn, x)) for x in ('xy', 'xz', 'yz')] != ['0.0', '0.0', '0.0']:
+        bad('Box.set_hi_los: defaults')
+    if not (len(b) == 5 and all(isinstance(st, ast.Assign) and len(st.targets) == 1 and isinstance(st.targets[0], ast.Name)
+                                for st in b[:4])
+            and [st.targets[0].id for st in b[:4]] == ['lx', 'ly', 'lz', 'origin']
+            and U(b[4]) == 'self.set_lengths(lx=lx, ly=ly, lz=lz, xy=xy, xz=xz, yz=yz, origin=origin)'):
+        bad('Box.set_hi_los: body')
+    henv = {x: (x, 'K') for x in ('xlo', 'xhi', 'ylo', 'yhi', 'zlo', 'zhi', 'xy', 'xz', 'yz')}
+    hilo = []
+    for st, want in zip(b[:4], 'KKKV'):
+        x, ty = tr(st.value, henv)
+        if ty != want:
+            bad('Box.set_hi_los: ' + U(st))
+        hilo.append(x)
     # vect_angle
     vtree = ast.parse(cm.source('atomman/tools/vect_angle.py'))
     fns = [n for n in vtree.body if isinstance(n, ast.FunctionDef) and n.name == 'vect_angle']
@@ -4145,20 +4265,39 @@ def translate():
             and U(b[3].iter) == 'self.view' and not b[3].orelse and len(b[3].body) == 1 and isinstance(b[3].body[0], ast.If)):
         bad('Atoms.__deepcopy__: body')
     explicit = []
+    copy_src = []       # (key of the copy, key of the view its value is read from)
+
+    def view_key(node):
+        """`self.view[<string literal>]` -> the literal; `self.view[key]` -> 'key' (the loop variable); else None."""
+        if not (isinstance(node, ast.Subscript) and U(node.value) == 'self.view'):
+            return None
+        sl = node.slice
+        if isinstance(sl, ast.Constant) and isinstance(sl.value, str) and sl.value != 'key':
+            return sl.value
+        if isinstance(sl, ast.Name) and sl.id == 'key':
+            return 'key'
+        return None
     for st in b[1:3]:
-        ok = isinstance(st, ast.Assign) and isinstance(st.targets[0], ast.Name) and isinstance(st.value, ast.Call) \
-            and U(st.value.func) == 'deepcopy' and len(st.value.args) == 1 \
-            and U(st.value.args[0]) == f"self.view['{st.targets[0].id}']"
+        ok = isinstance(st, ast.Assign) and len(st.targets) == 1 and isinstance(st.targets[0], ast.Name) \
+            and isinstance(st.value, ast.Call) \
+            and U(st.value.func) == 'deepcopy' and len(st.value.args) == 1 and not st.value.keywords \
+            and view_key(st.value.args[0]) not in (None, 'key')
         if not ok:
             bad('Atoms.__deepcopy__: ' + U(st)[:60])
         explicit.append(st.targets[0].id)
+        copy_src.append((st.targets[0].id, view_key(st.value.args[0])))
     iff = b[3].body[0]
     t = iff.test
     if not (isinstance(t, ast.Compare) and U(t.left) == 'key' and len(t.ops) == 1 and isinstance(t.ops[0], ast.NotIn)
             and isinstance(t.comparators[0], (ast.List, ast.Tuple, ast.Set))
             and all(isinstance(e, ast.Constant) and isinstance(e.value, str) for e in t.comparators[0].elts)
-            and not iff.orelse and [U(x) for x in iff.body] == ['d[key] = deepcopy(self.view[key])']):
-        bad('Atoms.__deepcopy__: the filter of the loop is not `key not in [<literal names>]`')
+            and not iff.orelse and len(iff.body) == 1 and isinstance(iff.body[0], ast.Assign)
+            and len(iff.body[0].targets) == 1 and U(iff.body[0].targets[0]) == 'd[key]'
+            and isinstance(iff.body[0].value, ast.Call) and U(iff.body[0].value.func) == 'deepcopy'
+            and len(iff.body[0].value.args) == 1 and not iff.body[0].value.keywords
+            and view_key(iff.body[0].value.args[0]) is not None):
+        bad('Atoms.__deepcopy__: the loop is not `if key not in [<literal names>]: d[key] = deepcopy(self.view[<key>])`')
+    loop_src = view_key(iff.body[0].value.args[0])
     reserved = [e.value for e in t.comparators[0].elts]
     if U(b[4]) != 'return Atoms(' + ', '.join(f'{x}={x}' for x in explicit) + ', **d)':
         bad('Atoms.__deepcopy__: ' + U(b[4])[:60])
@@ -4246,6 +4385,10 @@ def translate():
     A('/-- `Atoms.__deepcopy__`: keys copied explicitly and handed over by keyword; names the loop filter excludes (exact match) -/')
     A(f'def atomsCopyExplicit : List String := {strs(explicit)}')
     A(f'def atomsCopyReserved : List String := {strs(reserved)}')
+    A('/-- `<k> = deepcopy(self.view[<src>])` for the explicitly copied keys: `(k, src)`; `d[key] = deepcopy(self.view[<src>])` of the loop')
+    A('    (`"key"` = the loop variable, i.e. the entry the loop is at) -/')
+    A('def atomsCopySource : List (String × String) := ' + lst('("%s", "%s")' % ks for ks in copy_src))
+    A(f'def atomsCopyLoopSource : String := "{loop_src}"')
     A('')
     A('variable {K : Type}')
     A('section formulas')
@@ -4282,6 +4425,10 @@ def translate():
     A('/-- `set_lengths`: the assertion and the matrix handed to the `vects` setter -/')
     A(f'def lengthsOk (lx ly lz : K) : Bool := {lok}')
     A(f'def lengthsVects (lx ly lz xy xz yz : K) : M3 K := {lvects}')
+    A('/-- `set_hi_los`: lengths and origin handed to `set_lengths` (tilt factors handed on as they are; defaults 0.0) -/')
+    for nm, x in zip(('Lx', 'Ly', 'Lz'), hilo):
+        A(f'def hiLo{nm} (xlo xhi ylo yhi zlo zhi : K) : K := {x}')
+    A(f'def hiLoOrigin (xlo xhi ylo yhi zlo zhi : K) : V3 K := {hilo[3]}')
     A('/-- `set_abc`: the six LAMMPS parameters; `ca cb cg` = `np.cos(angle * np.pi / 180)` -/')
     for d in abc_defs:
         A(d)
